@@ -256,3 +256,12 @@ PROPS["C17"]["rule"] += "; G7: doc comments and unrelated attributes on the enum
 PROPS["C16"]["rule"] += "; kmer!(lit, storage) forms in the negatives; dna!/iupac! literals beyond 64 machine words (2049, 2100 / 1025, 1100 symbols)"
 PROPS["C08"]["rule"] += "; iterator protocol exploration of KmerIter (every {next, nth(k)} sequence up to depth 2 followed by every terminal consumer)"
 PROPS["C11"]["rule"] += "; iterator protocol exploration: every {next, nth(0), nth(1), nth(2), nth(n+1)} sequence up to depth 3/4 followed by each of {drain, count, last, size_hint, fold, skip(1), step_by(2), skip(2).nth(1)} on fresh iterators against the model list"
+
+PROPS["C02"]["rule"] += "; Alias: every pair of windows of ONE parent buffer (equal length and +-1, plain and headed) through the slice comparisons, == &str and the hasher; containers (Vec<Seq>, Vec<&SeqSlice>, tuples, [Kmer]) hash alike (Hash::hash_slice); Borrow/AsRef/Deref agree"
+PROPS["C12"]["rule"] += "; ContainsAlias: every pair of windows of one buffer incl. prefixes and empty slices"
+PROPS["C06"]["rule"] += "; clone_from into an empty, a shorter and a longer target"
+PROPS["C07"]["rule"] += "; AltCodes: sequences built with from_raw over every decodable code (canonical or documented alternative) at every position, for every codec that has alternatives"
+PROPS["C10"]["rule"] += "; Ord::max/min/clamp; order consistent with equality also on storage values with bits above the K symbols"
+PROPS["C14"]["rule"] += "; every codon length 0..=300 except 3"
+PROPS["C01"]["rule"] += "; String::from / format! forms incl. width, fill and alignment flags; collect/extend through iterators with inexact size hints"
+PROPS["C04"]["rule"] += "; producers include owned sequences collected from windows(n)/chunks(n), From<&BitSlice>/From<BitVec>, and Seq::<text::Dna>::from(Vec<usize>)"
